@@ -18,10 +18,10 @@ THEOREMS = [
      "(forall t c, fs t = Some c -> contains_sub secret c = true -> guarded t c = true) -> "
      "(forall s, contains_sub secret (errpage s) = false) -> "
      "(forall s, PresentLine.present_parse (errpage s) = Ok None) -> "
-     "forall cache_on ims_on parse_ims refuses vary_tuple vary_header now ops, "
-     "Forall2 (reply_ok fs secret) ops (run_g true true fs errpage cache_on ims_on parse_ims refuses vary_tuple vary_header [] now ops)"),
+     "forall cache_on ims_on parse_ims prime refuses vary_tuple vary_header now ops, "
+     "Forall2 (reply_ok fs secret prime) ops (run_g true true fs errpage cache_on ims_on parse_ims prime refuses vary_tuple vary_header [] now ops)"),
     ("reply_ok_meaning",
-     "forall fs secret r rp lg, reply_ok fs secret (OReq r) (ObReply rp lg) -> "
+     "forall fs secret prime r0 rp lg, reply_ok fs secret prime (OReq r0) (ObReply rp lg) -> let r := prime r0 in "
      "contains_sub secret (rp_body rp) = true \\/ contains_sub secret (rp_identity rp) = true -> "
      "exists t c, served_file (rq_path r) = Ok (Some t) /\\ fs t = Some c /\\ is_private t = false /\\ "
      "has_name N_HIDE (entries_of c) = false /\\ has_name N_ALLOW (entries_of c) = true /\\ listed (rq_addr r) (entries_of c) = true"),
@@ -33,9 +33,10 @@ THEOREMS = [
     ("guarded_answer_is_404", None),
     ("private_spelling_v0_refuted", None),
     ("cache_directive_v0_refuted", None),
-    ("violates_contradicts_confined", "forall fs secret ops obs, violates fs secret ops obs -> ~ Forall2 (reply_ok fs secret) ops obs"),
+    ("violates_contradicts_confined", "forall fs secret ops obs, violates fs secret ops obs -> ~ Forall2 (reply_ok fs secret (fun r => r)) ops obs"),
 ]
-RULE = ("histories of requests against the real kvarn::handle_cache in process (host = Extensions::empty() + kvarn_extensions::mount_all, "
+RULE = ("histories of requests against the real kvarn::handle_cache in process (host = Extensions::empty() or, for a third of the scenarios, "
+        "Extensions::new() [default Prime 'Expand . and /': /e/ -> /e/index.html, /r. -> /r.html], + kvarn_extensions::mount_all, "
         "fixture files written to a fresh directory, chosen client address per request) vs. the extracted Coq model (correspondence: status, "
         "cache-control, last-modified presence, decoded body, identity body per request). Fixture files carry a marker SECRET:<file>:<nonce> "
         "after their first line; files: *.private (also in a sub-directory), '!> hide', '!> allow-ips <list>' with and without '&> cache ...' "
@@ -159,6 +160,10 @@ def fixture(rng, rich=True):
     add(rng.choice([b"n.txt", b"nm"]), rng.choice(NEAR_MISS_LINES), True, kind="allow")
     add(rng.choice([b"h.txt", b"h", b"d/h.css"]), rng.choice(HIDE_LINES), True, crlf=rng.random() < 0.15, kind="hide")
     if rich:
+        add(b"e/index.html", rng.choice(ALLOW_LINES[:9] + HIDE_LINES[:3]), True, kind="redirect")
+        targets[-1] = (b"/e/", "redirect")
+        add(b"r.html", rng.choice(ALLOW_LINES[:9] + HIDE_LINES[:3]), True, kind="redirect")
+        targets[-1] = (b"/r.", "redirect")
         add(b"p.txt", rng.choice(PLAIN_LINES), False, kind="plain")
         add(rng.choice([b"x.PRIVATE", b"x.privat", b"x.private2", b"private"]), None, False, kind="plain")
         if rng.random() < 0.3:
@@ -196,7 +201,7 @@ def dot_masks(path):
 def structural(path, rng):
     p = path
     return rng.choice([p + b"/", p + b"/.", p + b"%00", p + b"%ff", p + b"%2F", b"/" + p, p.replace(b"/", b"//", 2)[1:] if p.count(b"/") > 1 else p + b".",
-                       p[:-1] + bytes([p[-1] ^ 0x20]), p + b"%20", p.upper(), b"/%2e/" + p[1:], b"/x/%2e%2e" + p, p + b"/..", p + b"?"])
+                       (p[:-1] + bytes([p[-1] ^ 0x20]) if p[-1:].isalpha() else p + b"~"), p + b"%20", p.upper(), b"/%2e/" + p[1:], b"/x/%2e%2e" + p, p + b"/..", p + b"?"])
 
 
 HDR_SETS = [[], [], [], [(b"accept-encoding", b"gzip")], [(b"accept-encoding", b"br, gzip;q=0.5")], [(b"accept-encoding", b"zstd")],
@@ -229,11 +234,13 @@ def history(rng, spellings, extra_addrs=3, methods=True):
     return ops
 
 
-def mk(rng, files, ops, kind, vary=None, both=True, cache=None, fcache=None):
+def mk(rng, files, ops, kind, vary=None, both=True, cache=None, fcache=None, default_ext=None):
     out = []
     caches = (True, False) if both else (rng.random() < 0.85 if cache is None else cache,)
+    de = rng.random() < 0.35 if default_ext is None else default_ext
     for c in caches:
-        kw = dict(cache=c, fcache=rng.random() < 0.7 if fcache is None else fcache, files=files, report=[xb(r) for r in REPORT])
+        kw = dict(cache=c, fcache=rng.random() < 0.7 if fcache is None else fcache, files=files, report=[xb(r) for r in REPORT], default_ext=de)
+        kind = kind + ("/default-ext" if de and "/default-ext" not in kind else "")
         if vary:
             kw["vary"] = vary
         out.append(Case("guards.run", pipe.scenario(pipe.cfg(**kw), ops), "guards.spec", {"kind": kind + ("/cache" if c else "/nocache")}))
